@@ -284,6 +284,10 @@ func (s *Sim) onResponse(r *ReqRec) {
 		}
 	}
 	s.rules.onResponse(r)
+	// the states its transactions saw are no longer needed
+	for _, tr := range r.Txs {
+		tr.Pre, tr.Post = nil, nil
+	}
 }
 
 func (s *Sim) onMessage(m *MsgRec) {
